@@ -21,7 +21,7 @@ def prop(pid, level="proof", explanation="", trusted_base=(), assumptions=()):
                       trusted_base=TB_COMMON + list(trusted_base), assumptions=list(assumptions))
 
 
-def kani(harness, props, tier="quick", kind="complete", bound="", fns=(), text="", timeout=600, allow=()):
+def kani(harness, props, tier="quick", kind="complete", bound="", fns=(), text="", timeout=1800, allow=()):
     """allow: regexes of failed-check descriptions that are *clean failures the property permits*
     (documented panics of a constructor on invalid input); they are not violations."""
     KANI_UNITS.append(dict(harness=harness, props=list(props), tier=tier, kind=kind, bound=bound,
